@@ -133,6 +133,8 @@ class Cb:
     yields: int = 0
     wrap: str = ""        # "" | "wraps" (functools.wraps decorator) | "sig" (… that also sets __signature__)
     alias_of: int = 0     # >0: shares the function (same name, same provider) of that callback, in another group
+    ref: int = -1         # style "evref": the *event* (id) whose name is given as the callback (`before="go"`): the
+                          # library calls that event with the parent's arguments (`dispatcher.event_method`)
 
 
 @dataclass
@@ -180,6 +182,12 @@ class Scn:
     # -- derived
     def is_async(self):
         return any(c.coro and c.wrap != "lazy" for c in self.cbs if self._cb_live_at_ctor(c) and self._cb_bound(c))
+
+    def is_chain(self):
+        """some callback is an event reference: trigger identity is then taken from the TriggerData object (the
+        chained event inherits the parent's keyword arguments, `_tid` included) and both observations are
+        renumbered by first appearance"""
+        return any(c.style == "evref" for c in self.cbs)
 
     def _cb_bound(self, c):
         """an event-named convention callback exists for the library only if some transition carries the event"""
@@ -383,6 +391,8 @@ REAL_PRIO = {"generic": 0, "inline": 10, "decorator": 20, "naming": 30, "after":
 def _name_key(c: Cb):
     """attribute name as the registry model sees it; a name attached to several groups is one attribute for the
     library but one callback id per group for the harness, so every alias gets its own pseudo-name"""
+    if c.style == "evref":      # one callback id per place of use; the machine offers the event under its name
+        return f"{c.name}#ev{c.id}"
     return f"{c.name}#{c.group}" if c.alias_of else c.name
 
 
@@ -403,12 +413,12 @@ def registry_lines(scn: Scn):
         for g in groups:
             seen = set()
             for c in scn.cbs:
-                if c.at == at and c.group == g and c.style in ("name", "callable"):
-                    key = _name_key(c) if c.style == "name" else ("callable", c.id)
+                if c.at == at and c.group == g and c.style in ("name", "callable", "evref"):
+                    key = _name_key(c) if c.style in ("name", "evref") else ("callable", c.id)
                     if key in seen:
                         continue
                     seen.add(key)
-                    ref = f"n{nid(key)}" if c.style == "name" else f"c{c.id}"
+                    ref = f"n{nid(key)}" if c.style in ("name", "evref") else f"c{c.id}"
                     out.append(tok(g, ref, REAL_PRIO["inline"], expected=(g != "unless")))
         return out
 
@@ -450,7 +460,7 @@ def registry_lines(scn: Scn):
     for p in provs:
         attrs = []
         for c in scn.cbs:
-            if c.provider == p and c.style in ("conv", "name"):
+            if c.provider == p and c.style in ("conv", "name", "evref"):
                 attrs.append(f"{nid(_name_key(c))}:{c.id}")
         out.append(f"prov {pid[p]} {','.join(attrs) if attrs else '-'}")
     out.append("ctor " + ",".join(str(pid[p]) for p in scn.providers()))
@@ -467,6 +477,7 @@ def model_lines(scn: Scn, live=None, kind="engine"):
     out.append(
         f"opt rtc={int(scn.rtc)} allow={int(scn.allow)} async={int(scn.is_async())} "
         f"start={'-' if scn.start is None else scn.start} cur={'-' if scn.cur0 is None else scn.cur0}"
+        + (" actkey=state" if scn.is_chain() else "")
     )
     for t in used_toks(scn):
         out.append(f"tok {t} {int(not bool(POOL[t]))} {rp(POOL[t])}")
@@ -500,6 +511,9 @@ def model_lines(scn: Scn, live=None, kind="engine"):
         out.append(
             f"act cb={cb} lo={lo} hi={hi} ret={ret} raise={'-' if rz is None else rz} sends={lst(sends)}"
         )
+    for c in scn.cbs:
+        if c.style == "evref":     # sends the event, hands back what the event returned
+            out.append(f"act cb={c.id} lo=0 hi=1000000000 ret=0 raise=- sends={c.ref} retsend=1")
     out += ops_out
     out.append("end")
     return out
@@ -528,6 +542,8 @@ class Runtime:
         for k in self.aliases:
             self.aliases[k].sort(key=lambda x: order[x.group])
         self.alias_count = {}
+        self.chain = scn.is_chain()
+        self.tds = []             # chain scenarios: (TriggerData object, label) in order of first appearance
         self.cross_hook = None    # worlds: called after a callback's nested sends (cross-machine nesting)
         self.owner_ids = None     # ids of the objects that may provide this instance's callbacks (C17)
 
@@ -545,7 +561,29 @@ class Runtime:
         self.alias_count[(c.id, tid)] = k + 1
         return al[min(k, len(al) - 1)]
 
+    def relabel(self, got, kw):
+        """chain scenarios (an event used as a callback): the chained event is called with the parent's keyword
+        arguments, so `_tid` does not identify the trigger; the TriggerData object does"""
+        if not self.chain:
+            return got
+        ed = kw.get("event_data")
+        td = getattr(ed, "trigger_data", None)
+        if td is None:
+            self.lines.append("X chain scenario: callback without event_data")
+            return got
+        for k, (obj, label) in enumerate(self.tds):
+            if obj is td:
+                got["_tid"] = label
+                return got
+        label = 5000 + len(self.tds)
+        self.tds.append((td, label))
+        got["_tid"] = label
+        return got
+
     def act(self, cb, tid):
+        if self.chain:     # chain scenarios: behaviour rows are keyed by the state value the callback sees
+            v = getattr(self.model, self.scn.state_field, None)
+            tid = 999 if v is None else (tok_of(v) if tok_of(v) is not None else 998)
         for (c, lo, hi, ret, rz, sends) in self.scn.acts:
             if c == cb and lo <= tid <= hi:
                 return ret, rz, sends
@@ -669,7 +707,7 @@ def make_fn(rt: Runtime, c: Cb, with_self: bool):
     def _body(kw, me=None):
         c = rt.alias_pick(c0, kw)
         _owner(me)
-        got = extract(c0, (), kw)
+        got = rt.relabel(extract(c0, (), kw), kw)
         tid, ph = rt.begin(c, got)
         ret, rz, sends = rt.act(c.id, tid)
         for e in sends:
@@ -689,7 +727,7 @@ def make_fn(rt: Runtime, c: Cb, with_self: bool):
     async def _abody(kw, me=None):
         c = rt.alias_pick(c0, kw)
         _owner(me)
-        got = extract(c0, (), kw)
+        got = rt.relabel(extract(c0, (), kw), kw)
         tid, ph = rt.begin(c, got)
         ret, rz, sends = rt.act(c.id, tid)
         for _ in range(c.yields):
@@ -751,8 +789,8 @@ def build(scn: Scn, rt: Runtime, cls_name=None, picklable=False):
 
     def inline(at, g):
         out = []
-        for c in cbs_at(at, g, ("name", "callable")):
-            if c.style == "name":
+        for c in cbs_at(at, g, ("name", "callable", "evref")):
+            if c.style in ("name", "evref"):      # evref: the name of a declared event
                 if c.name not in out:
                     out.append(c.name)
             else:
@@ -1171,6 +1209,33 @@ def canon(lines, sort_groups=True):
     return out
 
 
+def renumber(lines):
+    """chain scenarios: trigger ids in B/S/E lines replaced by their rank of first appearance; the `tid=` of R lines
+    (the id allocated for the caller's own event, which may never reach a callback) dropped"""
+    rank = {}
+    out = []
+    for l in lines:
+        p = l.split(" ")
+        if p[0] in ("B", "S", "E"):
+            p[1] = "c" + str(rank.setdefault(p[1], len(rank)))
+            out.append(" ".join(p))
+        elif p[0] == "R":
+            out.append(" ".join(x for x in p if not x.startswith("tid=")))
+        else:
+            out.append(l)
+    return out
+
+
+def impl_obs(scn: Scn, impl_lines):
+    a = canon(impl_lines)
+    return renumber(a) if scn.is_chain() else a
+
+
 def model_obs(scn: Scn, raw_lines):
     cbmap = {c.id: c for c in scn.cbs}
+    if scn.is_chain():
+        # the library's own wrapper for an event used as a callback runs no user code: nothing of it is observed
+        evrefs = {str(c.id) for c in scn.cbs if c.style == "evref"}
+        raw_lines = [l for l in raw_lines if not (l[:2] in ("B ", "S ", "E ") and l.split(" ")[3] in evrefs)]
+        return renumber(canon([mask_model_line(l, scn, cbmap) for l in raw_lines]))
     return canon([mask_model_line(l, scn, cbmap) for l in raw_lines])
